@@ -27,6 +27,38 @@ const (
 	Minute      = real.Minute
 	Hour        = real.Hour
 
+	Layout     = real.Layout
+	ANSIC      = real.ANSIC
+	UnixDate   = real.UnixDate
+	RFC822     = real.RFC822
+	RFC850     = real.RFC850
+	RFC1123Z   = real.RFC1123Z
+	Stamp      = real.Stamp
+	StampMilli = real.StampMilli
+	StampMicro = real.StampMicro
+	StampNano  = real.StampNano
+
+	January   = real.January
+	February  = real.February
+	March     = real.March
+	April     = real.April
+	May       = real.May
+	June      = real.June
+	July      = real.July
+	August    = real.August
+	September = real.September
+	October   = real.October
+	November  = real.November
+	December  = real.December
+
+	Sunday    = real.Sunday
+	Monday    = real.Monday
+	Tuesday   = real.Tuesday
+	Wednesday = real.Wednesday
+	Thursday  = real.Thursday
+	Friday    = real.Friday
+	Saturday  = real.Saturday
+
 	RFC3339     = real.RFC3339
 	RFC3339Nano = real.RFC3339Nano
 	RFC1123     = real.RFC1123
@@ -47,12 +79,15 @@ var (
 	Until = vclock.Until
 	Sleep = vclock.Sleep
 
-	Unix          = real.Unix
-	UnixMilli     = real.UnixMilli
-	UnixMicro     = real.UnixMicro
-	Date          = real.Date
-	Parse         = real.Parse
-	ParseDuration = real.ParseDuration
+	Unix            = real.Unix
+	UnixMilli       = real.UnixMilli
+	UnixMicro       = real.UnixMicro
+	Date            = real.Date
+	Parse           = real.Parse
+	ParseDuration   = real.ParseDuration
+	ParseInLocation = real.ParseInLocation
+	FixedZone       = real.FixedZone
+	LoadLocation    = real.LoadLocation
 	// Tickers and timers stay real: the only user is the background-merge goroutine, which no check enables.
 	NewTicker = real.NewTicker
 	NewTimer  = real.NewTimer
